@@ -167,7 +167,7 @@ func zzvC01FileSets() []zzvC01FileSet {
 		{"two-files-same-build", []ref.LocalFile{{ok, half1}, {ok, half2}}},
 		{"eleven-builds", many},
 		{"big-values", []ref.LocalFile{{ok, big}, {ok, map[string]uint64{"c": 1 << 31}}}},
-		{"huge-values", []ref.LocalFile{{ok, map[string]uint64{"c": 1 << 63, "c:a": ^uint64(0), "d:a": 1 << 62, "s\nF": 1<<63 + 5}}, {ok, map[string]uint64{"d:a": 1 << 62, "c:b": 7}}}},
+		{"huge-values", []ref.LocalFile{{ok, map[string]uint64{"c": 1 << 63, "c:a": ^uint64(0), "d:a": 1 << 62, "s\nF": 1<<63 + 5, "c:b": 7, "d:b": ^uint64(0) - 2}}, {ok, map[string]uint64{"d:a": 1 << 62, "c:b": ^uint64(0), "d:b": 9, "c": 3, "s\nF": 1 << 63}}}},
 	}
 }
 
@@ -224,7 +224,6 @@ func zzvC01Run(res *vrep.Result, base string, cc zzvC01Cfg, x float64, fs zzvC01
 				fail("negative-value-in-local-report", "counter %q recorded as %d in the local report (local sum >= 2^63)", zzvShortS(t.Name), t.Value)
 			}
 		}
-		gotLocal, wantLocal = nil, nil
 	}
 	if d := ref.DiffTriples(gotLocal, wantLocal); len(d) > 0 {
 		fail("local-aggregate-differs", "local aggregate differs from the sums over the files: %s", strings.Join(d[:min(3, len(d))], "; "))
@@ -251,26 +250,14 @@ func zzvC01Run(res *vrep.Result, base string, cc zzvC01Cfg, x float64, fs zzvC01
 	}
 	got, gotBuilds := ref.ReportTriples(&rep)
 	if fs.desc == "huge-values" {
-		// Sums beyond the range of the report's integers: the only demand is
-		// that a count is never reported as a negative number, and that the
-		// names are the approved ones.
+		// Sums beyond the range of the report's integers are reported as the largest
+		// int64 (the reference sums exactly and saturates); never as a negative number.
 		for t := range got {
 			if t.Value < 0 {
 				fail("negative-value-uploaded", "counter %q uploaded as %d although counts never decrease (local sum >= 2^63)", zzvShortS(t.Name), t.Value)
 			}
 		}
-		gotNames, wantNames := map[string]bool{}, map[string]bool{}
-		for t := range got {
-			gotNames[t.Name] = true
-		}
-		for t := range want {
-			wantNames[t.Name] = true
-		}
-		if fmt.Sprint(gotNames) != fmt.Sprint(wantNames) {
-			fail("upload-differs", "uploaded names %v, reference %v", gotNames, wantNames)
-		}
 		res.Class("sent/huge-values")
-		return
 	}
 	for b := range gotBuilds {
 		if !wantBuilds[b] {
